@@ -47,7 +47,7 @@ fn strategy(untyped: bool) -> impl Strategy<Value = Case> {
 
 fn demote_phys(c: &Cfg) -> Cfg {
     match c {
-        Cfg::Mem | Cfg::Phys => Cfg::Mem,
+        Cfg::Mem | Cfg::Phys | Cfg::Emb => Cfg::Mem,
         Cfg::Alt(i, d) => Cfg::Alt(Box::new(demote_phys(i)), *d),
         Cfg::Ovl(ls) => Cfg::Ovl(ls.iter().map(demote_phys).collect()),
         Cfg::OvlSub(i, n) => Cfg::OvlSub(Box::new(demote_phys(i)), *n),
